@@ -1,5 +1,5 @@
-"""persistent worker of the C07 check: started with its own PYTHONHASHSEED, reads one JSON case per line on stdin,
-scrambles the global generators, runs the simulation and answers with the digest."""
+"""worker of the C07 check: a FRESH interpreter per case, started with its own PYTHONHASHSEED; reads JSON cases (one per
+line) on stdin, scrambles the global generators, runs the simulation(s) and answers with the digest of each."""
 import json
 import os
 import random
@@ -17,26 +17,27 @@ import numpy as np  # noqa: E402
 
 
 def main():
+    """stdin: one JSON document {"runs": [case, ...]}; stdout: one JSON list with the digest record of every run, in order.
+    The global generators are scrambled (differently per salt and per position) before every run."""
     salt = int(os.environ.get("C07_SALT", "0"))
-    n = 0
-    for line in sys.stdin:
-        line = line.strip()
-        if not line:
-            continue
-        case = json.loads(line)
-        n += 1
+    doc = json.loads(sys.stdin.read())
+    answers = []
+    for n, case in enumerate(doc["runs"], 1):
         random.seed(salt * 7919 + n)
         np.random.seed((salt * 104729 + n) % (2**32))
-        for _ in range(17 + salt):
+        for _ in range(17 + salt % 50 + 1000 * (n > 1)):
             random.random()
+            np.random.random()
         try:
             out = digest_case(case)
         except PamsCrash as c:
-            out = {"crash": f"{c.innermost_pams_file()}:{c.exc_type}", "digest": f"crash:{c.innermost_pams_file()}:{c.exc_type}:{c.exc_msg}"}
+            out = {"crash": f"{c.innermost_pams_file()}:{c.exc_type}", "digest": f"crash:{c.innermost_pams_file()}:{c.exc_type}:{c.exc_msg}",
+                   "settings_unchanged": True, "classes": [], "n_logs": 0, "records": 0, "tb": c.tb_text}
         except Exception as e:  # noqa: BLE001
             out = {"error": f"{type(e).__name__}: {e}"}
-        sys.stdout.write(json.dumps(out) + "\n")
-        sys.stdout.flush()
+        answers.append(out)
+    sys.stdout.write(json.dumps(answers) + "\n")
+    sys.stdout.flush()
 
 
 if __name__ == "__main__":
